@@ -324,8 +324,93 @@ class GAWrapper(Harness):
                 P.prove(P.eq(cell(F, i, j), ref[j]), "reported-objective=evaluation-of-the-reported-decision-vector", detail="solution %d %s objective %d" % (i, r, j))
 
 
+class GAWrapperEnc(Harness):
+    """the same assembly obligation for the Real / Integer / Binary GA classes, with one inequality and one equality constraint whose
+    raw (unclipped) values differ between front members: objective, inequality and equality rows must all belong to the decision row
+    they are reported with"""
+    name = "ga-solution-assembly-encodings"
+    needs_real_run = False
+
+    def modules(self):
+        return MODS + [ALGO + a for a in ("RealGeneticAlgorithm", "NSGA2RealGeneticAlgorithm", "IntegerGeneticAlgorithm", "NSGA2IntegerGeneticAlgorithm",
+                                          "BinaryGeneticAlgorithm", "NSGA2BinaryGeneticAlgorithm")]
+
+    def inputs(self, mk):
+        n = self.params["n"]
+        inp = dict(ebv=mk.real("e", (n, 1)))
+        if not mk.concrete:
+            import z3
+            sym.ctx().prefer = list(sym.ctx().prefer) + [z3.Distinct(*[c.e for c in cells(inp["ebv"])])]
+        return inp
+
+    @staticmethod
+    def _vals(inp, x, nobj):
+        objs = []
+        for j in range(1, nobj + 1):
+            tot = 0.0
+            for k, v in enumerate(x):
+                tot = tot + float((k + 1) ** j) * float(v) * cell(inp["ebv"], k, 0)
+            objs.append(tot)
+        g = sum(float(k + 2) * float(v) for k, v in enumerate(x)) - 1.0          # raw slack, may be negative
+        h = sum(float((k + 1) ** 2) * float(v) for k, v in enumerate(x)) - 2.0
+        return objs, g, h
+
+    def call(self, inp, mk):
+        import importlib
+        enc, algo, n, nobj = self.params["enc"], self.params["algo"], self.params["n"], self.params["nobj"]
+        C = getattr(importlib.import_module("pybrops.breed.prot.sel.prob.EstimatedBreedingValueSelectionProblem"), "EstimatedBreedingValue%sSelectionProblem" % enc)
+        vals = self._vals
+
+        def wrap(v):
+            return symnp._sa(v) if any(isinstance(c, SV) for c in v) else numpy.array(v, dtype=float)
+        z, o = (0.0, 1.0) if enc == "Real" else (0, 1)
+        prob = C(ebv=inp["ebv"], ndecn=n, decn_space=numpy.stack([numpy.repeat(z, n), numpy.repeat(o if enc != "Integer" else 3, n)]), decn_space_lower=numpy.repeat(z, n),
+                 decn_space_upper=numpy.repeat(o if enc != "Integer" else 3, n), nobj=nobj, obj_wt=numpy.repeat(1.0, nobj),
+                 obj_trans=lambda d, l, **k: wrap(vals(inp, d, nobj)[0]),
+                 nineqcv=1, ineqcv_wt=numpy.array([1.0]), ineqcv_trans=lambda d, l, **k: wrap([vals(inp, d, nobj)[1]]),
+                 neqcv=1, eqcv_wt=numpy.array([1.0]), eqcv_trans=lambda d, l, **k: wrap([vals(inp, d, nobj)[2]]))
+        X = numpy.array(self.params["X"], dtype=float if enc == "Real" else int)
+
+        class Res:
+            pass
+
+        def stub_minimize(problem, algorithm, termination=None, **kw):
+            r = Res()
+            rows = [problem.evalfn(x) for x in X]
+            if problem.n_obj == 1:
+                r.X, (r.F, r.G, r.H) = X[0], rows[0]
+            else:
+                r.X = X
+                r.F, r.G, r.H = (numpy.stack([q[i] for q in rows]) for i in range(3))
+            return r
+        mod = importlib.import_module(ALGO + algo)
+        saved = mod.minimize
+        mod.minimize = stub_minimize
+        try:
+            s = getattr(mod, algo)(ngen=2, pop_size=4, rng=stubs.SymRNG("garng")).minimize(prob)
+        finally:
+            mod.minimize = saved
+        return dict(decn=s.soln_decn, obj=s.soln_obj, g=s.soln_ineqcv, h=s.soln_eqcv, nsoln=s.nsoln)
+
+    def check(self, P, inp, out):
+        nobj = self.params["nobj"]
+        D = out["decn"]
+        given = [tuple(float(v) for v in r) for r in (self.params["X"] if nobj > 1 else self.params["X"][:1])]
+        got = [tuple(float(v) for v in cells(D[i])) for i in range(D.shape[0])]
+        P.prove(int(out["nsoln"]) == len(got) and sorted(got) == sorted(given), "every-solution-of-the-search-is-reported", detail="%s vs %s" % (got, given))
+        for i, r in enumerate(got):
+            objs, g, h = self._vals(inp, r, nobj)
+            for j in range(nobj):
+                P.prove(P.eq(cell(out["obj"], i, j), objs[j]), "reported-objective=evaluation-of-the-reported-decision-vector")
+            P.prove(P.eq(cell(out["g"], i, 0), g), "reported-inequality-violation-belongs-to-the-reported-decision-vector", detail="solution %d %s" % (i, r))
+            P.prove(P.eq(cell(out["h"], i, 0), h), "reported-equality-violation-belongs-to-the-reported-decision-vector", detail="solution %d %s" % (i, r))
+
+
 def obligations(tier):
     obs = []
+    for enc, X in (("Real", [[0.5, 0.25, 0.25], [0.0, 1.0, 0.0], [0.25, 0.0, 0.5]]), ("Integer", [[2, 0, 1], [0, 3, 0], [1, 1, 1]]), ("Binary", [[1, 0, 1], [0, 1, 0], [1, 1, 0]])):
+        obs.append(GAWrapperEnc(enc=enc, algo="NSGA2%sGeneticAlgorithm" % enc, n=3, nobj=2, X=X))
+        obs.append(GAWrapperEnc(enc=enc, algo="%sGeneticAlgorithm" % enc, n=3, nobj=1, X=X[:1]))
     for algo, nobj, X in (("SubsetGeneticAlgorithm", 1, [[2, 0]]), ("NSGA2SubsetGeneticAlgorithm", 2, [[2, 0], [1, 3]]), ("NSGA2SubsetGeneticAlgorithm", 2, [[2, 0], [0, 2], [3, 1]]),
                           ("NSGA3SubsetGeneticAlgorithm", 2, [[3, 0], [1, 2]])):
         obs.append(GAWrapper(algo=algo, n=4, k=2, nobj=nobj, X=X))
